@@ -76,6 +76,9 @@ ProbeJudge(e) ==
   /\ (e.ev = "Reap") =>
         LET p == PassOf(e.n)
             el == Peers(e) IN
+        \* reaping never takes a listed (alive or suspect) member away: only a dead declaration, with
+        \* its leave event, may do that
+        /\ CReport("C03_ReapKeepsListed", e, {m.name : m \in e.membersPre} \subseteq {m.name : m \in e.members})
         /\ (p.full /\ p.stable /\ p.elig = el) =>
               /\ CReport("C03_Pass", e, \A x \in el : Count(p.picks, x) = 1)
               /\ PrintT(<<"STAT2", "C03_stable_passes", 1, 1>>)
